@@ -94,11 +94,27 @@ def theorem_names(module_file):
     return re.findall(r"^\s*theorem\s+([A-Za-z0-9_.']+)", src, flags=re.M)
 
 
-def audit_theorems(prop):
+def leanchecker(mods):
+    """independent re-check of the compiled theorem modules (thorough tier)"""
+    bad = []
+    for m in mods:
+        p = run(["lake", "env", "leanchecker", m], cwd=LEAN)
+        if p.returncode != 0:
+            bad.append("%s: %s" % (m, (p.stdout + p.stderr)[-300:]))
+    return bad
+
+
+# theorem files that serve several properties: the correctness of the (transcribed) noncontiguous
+# compiler turns Tie A's per-instance validation of that automaton into a theorem for all pattern lists
+EXTRA_THEOREMS = {"C01": ["L1c.lean"], "C02": ["L1c.lean"], "C03": ["L1c.lean"], "C19": ["L1c.lean"]}
+
+
+def audit_theorems(prop, recheck=False):
     """Builds AcVerif.Theorems.<prop>, lists its theorems and checks the axioms
     of each.  Returns dict(obligations, discharged, theorems, failures, log)."""
     tdir = os.path.join(LEAN, "AcVerif", "Theorems")
     files = sorted(f for f in os.listdir(tdir) if f.endswith(".lean") and re.match(r"^%s([A-Z][A-Za-z]*)?\.lean$" % prop, f))
+    files += [f for f in EXTRA_THEOREMS.get(prop, []) if os.path.exists(os.path.join(tdir, f))]
     res = {"obligations": 0, "discharged": 0, "theorems": [], "failures": [], "log": ""}
     if not files:
         res["failures"].append("missing theorem file for " + prop)
@@ -114,6 +130,12 @@ def audit_theorems(prop):
         res["failures"].append("lake build %s failed" % mod)
         res["log"] = out[-4000:]
         return res
+    if recheck:
+        bad = leanchecker(mods)
+        res["leanchecker"] = "ok" if not bad else bad
+        if bad:
+            res["failures"].append("leanchecker rejected: " + "; ".join(bad)[:500])
+            return res
     hits = source_audit()
     if hits:
         res["failures"].append("forbidden constructs: " + "; ".join(hits[:5]))
